@@ -500,4 +500,75 @@ def measure (p : Program) : Nat :=
 def removeUnused (calls : Bool) (tops : List String) (p : Program) : Program :=
   removeLoop p calls tops (measure p + 1) p
 
+/-! ## specification vocabulary (used by Props/C19.lean) -/
+
+/-- all call references occurring in a pipeline (bindings, modifiers, returns, retains) -/
+def callRefIdsOf (c : Callable) : List String :=
+  bindsRefIds RefKind.call c.ret
+  ++ ((c.retain.filter (·.kind == RefKind.call)).map (·.id))
+  ++ c.calls.flatMap (fun k => bindsRefIds RefKind.call k.binds ++ bindsRefIds RefKind.call k.mods)
+
+/-- decidable well-formedness: callable names are distinct; in every pipeline
+the call ids are distinct and every call reference names a call of that
+pipeline; stages have no body. -/
+def wfCallable (c : Callable) : Bool :=
+  if c.isPipe then
+    decide (callIds c).Nodup && (callRefIdsOf c).all (fun i => (callIds c).contains i)
+  else c.calls.isEmpty && c.ret.isEmpty && c.retain.isEmpty
+
+def WF (p : Program) : Bool :=
+  decide (p.callables.map (·.name)).Nodup && p.callables.all wfCallable
+
+/-- `y` can be used as a new name for callable `x` such that the renaming is
+reversible: it is not `x`, not the name of a callable, no call invokes a
+callable named `y`, and no call *of `x`* already uses `y` as its alias (such a
+call becomes `call y as y`, which is indistinguishable from an unaliased call). -/
+def FreshFor (x y : String) (p : Program) : Bool :=
+  x != y
+  && !(p.callables.any (·.name == y))
+  && p.callables.all (fun c => c.calls.all (fun k => k.decId != y && !(k.decId == x && k.id == y)))
+  && (match p.top with | some t => t.decId != y && !(t.decId == x && t.id == y) | none => true)
+
+/-- position of a call id -/
+def idxOf (id : String) : List String → Option Nat
+  | [] => none
+  | x :: xs => if x = id then some 0 else (idxOf id xs).map (· + 1)
+
+def posName (n : Nat) : String := "#" ++ toString n
+
+/-- replace a call reference by the position of the call it names -/
+def eraseRef (ids : List String) (r : Ref) : Ref :=
+  if r.kind = RefKind.call then
+    match idxOf r.id ids with
+    | some k => { r with id := posName k }
+    | none => r
+  else r
+
+def eraseCallIdsAux (ids : List String) : Nat → List Call → List Call
+  | _, [] => []
+  | n, c :: cs => Call.mapRefs (eraseRef ids) { c with id := posName n } :: eraseCallIdsAux ids (n + 1) cs
+
+/-- the pipeline with its call ids erased: the k-th call is called `#k` and
+every call reference points to a position.  Two pipelines that differ only in
+the choice of call ids (aliases) have the same image. -/
+def eraseCallIds (c : Callable) : Callable :=
+  let ids := callIds c
+  { c with calls := eraseCallIdsAux ids 0 c.calls,
+           ret := c.ret.map (Bind.mapRefs (eraseRef ids)),
+           retain := c.retain.map (eraseRef ids) }
+
+/-- the program modulo the choice of call ids: what each call invokes with
+which bindings, and which call/output every reference resolves to. -/
+def eraseIds (p : Program) : Program :=
+  { callables := p.callables.map eraseCallIds,
+    top := p.top.map (fun t => { t with id := "#top" }) }
+
+/-- rename a callable and nothing else: its definition and the callable name
+of every call of it (call ids and references untouched). -/
+def renameDec (x y : String) (p : Program) : Program :=
+  let ren (k : Call) : Call := if k.decId = x then { k with decId := y } else k
+  { callables := p.callables.map (fun c =>
+      if c.name = x then { c with name := y } else { c with calls := c.calls.map ren }),
+    top := p.top.map ren }
+
 end Martian.Refactor
